@@ -95,16 +95,6 @@ Qed.
 (* ------------------------------------------------------------------------------ *)
 (* accumulate                                                                     *)
 (* ------------------------------------------------------------------------------ *)
-Lemma norm_dim_lt : forall D dim d, norm_dim D dim = Some d -> (d < D)%nat.
-Proof.
-  intros D dim d H. unfold norm_dim in H.
-  destruct ((dim <? - Z.of_nat D) || (Z.of_nat D <=? dim))%Z eqn:E; [discriminate|].
-  inversion H; subst d; clear H. apply orb_false_iff in E. destruct E as [E1 E2].
-  apply Z.ltb_ge in E1. apply Z.leb_gt in E2.
-  assert (0 < Z.of_nat D)%Z by lia.
-  pose proof (Z.mod_pos_bound (dim + Z.of_nat D) (Z.of_nat D) ltac:(lia)). lia.
-Qed.
-
 Record rep (s : stats) (X : nat) (c : Q) (S1 S2 : nat -> Q) : Prop := mkRep {
   rep_len1 : length (ssum s) = X;
   rep_len2 : length (ssq s) = X;
@@ -491,4 +481,60 @@ Proof.
   - exact Hmu.
   - rewrite E, Hsq. exact Hov.
   - rewrite E. intros Z. rewrite Z in Hpos. now apply Qlt_irrefl in Hpos.
+Qed.
+
+(* ------------------------------------------------------------------------------ *)
+(* compute-mvn-stats-for-torch-feat-data-dir without --id2gid: directory-level       *)
+(* accumulation is accumulate_all over the files, then store                        *)
+(* ------------------------------------------------------------------------------ *)
+Lemma cmd_loop_anonymous : forall dim files st,
+  cmd_loop dim None files [(0%nat, st)] =
+  match accumulate_all dim st (map snd files) with
+  | Ok st' => Ok (Some [(0%nat, st')])
+  | Err e => Err e
+  end.
+Proof.
+  intros dim files. induction files as [|[i x] files IH]; intros st; [reflexivity|].
+  cbn [cmd_loop map snd accumulate_all assoc Nat.eqb].
+  destruct (accumulate dim st x) as [s|e]; cbn [bind]; [|reflexivity].
+  cbn [set_assoc Nat.eqb]. apply IH.
+Qed.
+
+Lemma cmd_anonymous : forall files dim bessel,
+  files <> [] ->
+  compute_mvn_stats files None dim bessel =
+  match bind (accumulate_all dim None (map snd files)) (fun s => store s bessel) with
+  | Ok mv => CmdOk [(0%nat, mv)]
+  | Err e => CmdExc e
+  end.
+Proof.
+  intros files dim bessel Hne. unfold compute_mvn_stats.
+  rewrite cmd_loop_anonymous.
+  destruct files as [|[i x] files]; [contradiction|].
+  cbn [map snd accumulate_all].
+  destruct (accumulate dim None x) as [s1|e]; cbn [bind]; [|reflexivity].
+  destruct (accumulate_all dim (Some s1) (map snd files)) as [[s|]|e] eqn:E; cbn [bind].
+  - cbn [cmd_store]. destruct (store (Some s) bessel) as [ms|e]; reflexivity.
+  - exfalso. clear - E. revert s1 E. induction (map snd files) as [|y ys IH]; intros s1 E; [discriminate|].
+    cbn [accumulate_all] in E. destruct (accumulate dim (Some s1) y); cbn [bind] in E; [eauto|discriminate].
+  - reflexivity.
+Qed.
+
+Lemma cmd_no_files : forall dim bessel, compute_mvn_stats [] None dim bessel = CmdRet1.
+Proof. reflexivity. Qed.
+
+(* the statistics file of a directory holds the pooled statistics of all its frames *)
+Lemma cmd_directory_stats : forall files dim X bessel,
+  files <> [] -> uniform dim X (map snd files) -> (2 <= frames dim (map snd files))%nat ->
+  exists mean var,
+    compute_mvn_stats files None dim bessel = CmdOk [(0%nat, (mean, var))] /\
+    length mean = X /\ length var = X /\
+    forall i, (i < X)%nat ->
+      nth i mean 0 == pop_mean (pooled dim (map snd files) i) /\
+      nth i var 0 == pop_var bessel (pooled dim (map snd files) i).
+Proof.
+  intros files dim X bessel Hne HU Hn.
+  assert (Hne' : map snd files <> []) by (destruct files; [contradiction|discriminate]).
+  destruct (store_is_pooled_mean_var dim X (map snd files) bessel Hne' HU Hn) as [m [v [E H]]].
+  exists m, v. split; [|exact H]. rewrite cmd_anonymous by assumption. now rewrite E.
 Qed.
